@@ -1,5 +1,6 @@
 import SSVerif.Model.Dict
 import SSVerif.Model.Dict2pid
+import SSVerif.Model.Dict2pidBuild
 import Driver.Util
 /-! driver sub-command `c16`: replays a dictionary op file on the model (same line format as harness/h_c16.c) -/
 namespace Driver.C16
@@ -112,6 +113,10 @@ def step (s : St) (ws : List String) : St × String :=
     match parseNat sil, parseHexAll names with
     | some sil, some ns => ({ s with m := { ciphones := ns, sil } }, "mdef ok")
     | _, _ => (s, "bad-op")
+  | "mdefx" :: sil :: names =>
+    match parseNat sil, parseHexAll names with
+    | some sil, some ns => ({ s with m := { ciphones := ns, sil } }, "mdef ok")
+    | _, _ => (s, "bad-op")
   | ["begin", kind, nc] =>
     ({ s with dec := kind = "dec", nocase := nc = "1", lines := [], flines := [], d := none, grammar := none }, "ok")
   | ["load", w, p] =>
@@ -137,6 +142,10 @@ def step (s : St) (ws : List String) : St × String :=
       (s, "n" ++ String.join ((List.range s.bm.nCi).flatMap fun l => (List.range s.bm.nCi).map fun r =>
             s!" {nearest s.bm b l r pos}"))
     | _, _ => (s, "bad-op")
+  | ["mgood"] =>
+    -- the decidable hypothesis of `C16_d2p_macros_exact` / `C16_d2p_mdef_never_bad` on the dumped real model definition
+    -- and of `C16_d2p_macros_exact_api`: the phone table of the `mdef` line has `n_ci` entries
+    (s, s!"mg {if mdefGood s.bm && s.m.ciphones.length == s.bm.nCi then 1 else 0}")
   | ["near", b, l, r, pos] =>
     match parseNat b, parseNat l, parseNat r, parseNat pos with
     | some b, some l, some r, some pos =>
@@ -219,7 +228,11 @@ def step (s : St) (ws : List String) : St × String :=
     (s, s!"d n={d.words.length} max={d.maxWords} fs={d.fillerStart} fe={d.fillerEnd} | {showEntries d.words}")
   | ["d2p"] =>
     if !s.dec then (s, "bad-op") else
-    (s, if d.words.all (fun e => e.pron ≠ [] && s.t.covers e.pron && wordExact s.bm s.tabs e.pron) then "d2p ok"
+    (s, if d.words.all (fun e => e.pron ≠ [] && s.t.covers e.pron && wordExact s.bm s.tabs e.pron) &&
+           -- hypothesis of `C16_d2p_macros_exact`: the phones of every word are CI phones of the model definition
+           d.words.all (fun e => e.pron.all (· < s.bm.nCi)) &&
+           -- the `dict2pid` clauses of C02's `WordLook`, read through the macros on the model-built tables
+           (List.range d.words.length).all (fun dw => d2pLookB s.bm d s.tabs s.bm.sil.toNat dw) then "d2p ok"
         else "d2p bad (model)")
   | "fsg" :: wsx =>
     if !s.dec then (s, "bad-op") else
